@@ -40,7 +40,8 @@ EXTRA_PATHS = ["m/44'/2'/0'/0/0", "m/44'/0'/1'/0/0", "m/0/0/0/0/0", "m/44'/137'/
 VARIANTS = ["none", "none", "reorder-file", "key-replaced", "key-added", "key-removed",
             "path-renamed", "hash-of-compressed", "hash-unsorted", "msg-truncated",
             "msg-extended", "foreign-header", "missing-target", "ui-key-mismatch", "wrong-root",
-            "root-not-self-signed", "hash-flipped"]
+            "root-not-self-signed", "hash-flipped", "foreign-platform-id", "bundled-root",
+            "one-target-signature-broken"]
 REQUIRED_LABELS = {t: ["plat:ledger", "plat:sgx", "accepted", "refused", "legacy", "current"] +
                    ["variant:" + v for v in sorted(set(VARIANTS))]
                    for t in ("quick", "thorough")}
@@ -65,7 +66,8 @@ def cases(draw, tier):
          "ui_version": draw(st.sampled_from(["2.1", "5.4", "4.0", "3.9"])),
          "legacy": draw(st.booleans()) if plat == "ledger" else False,
          "legacy_version": draw(st.sampled_from(["2.0", "5.3", "4.1"])),
-         "platform3": draw(st.sampled_from([b"led", b"sgx", b"x86", b"abc"])),
+         "platform3": b"led" if plat == "ledger" else b"sgx",
+         "foreign_platform3": draw(st.sampled_from([b"led", b"sgx", b"x86", b"abc"])),
          "ui_ud": draw(h32),
          "roots": [draw(st.integers(0, 2 ** 64)) for _ in range(4)],
          "auth": draw(st.binary(min_size=1, max_size=60)),
@@ -127,6 +129,8 @@ def run_case(c):
             genuine = (attest.pubkeys_hash(file_keys) == attest.pubkeys_hash(pubs) and
                        (attest.UI_PATH in file_keys or plat == "sgx"))
             labels.append("renamed-still-genuine" if genuine else "renamed-breaks")
+            if genuine and not newp.startswith("m/"):
+                genuine = None      # a name that is not a BIP32 path: may be refused as such
     pkhash = attest.pubkeys_hash(attested_keys)
     if var == "hash-of-compressed":
         h = hashlib.sha256()
@@ -156,7 +160,13 @@ def run_case(c):
         msg = attest.legacy_signer_message(c["legacy_version"], pkhash)
         labels.append("legacy")
     else:
-        msg = attest.powhsm_message(c["version"], c["platform3"], c["ud"], pkhash, c["best"],
+        platform3 = c["platform3"]
+        if var == "foreign-platform-id":
+            # the docs give each platform its own id; whether verification insists is not stated
+            platform3 = c.get("foreign_platform3", b"abc")
+            if platform3 != c["platform3"] and genuine:
+                genuine = None
+        msg = attest.powhsm_message(c["version"], platform3, c["ud"], pkhash, c["best"],
                                     c["tx"], c["ts"])
         labels.append("current")
     if var == "msg-truncated":
@@ -191,8 +201,17 @@ def run_case(c):
         if var == "wrong-root":
             root_arg = attest.LedgerDevice(c["roots"][0] + 1, 0, 0).root_pub.hex()
             genuine = False
-        if var == "root-not-self-signed":
+        if var in ("root-not-self-signed", "bundled-root"):
             labels[-1] += "-na"
+        if var == "one-target-signature-broken":
+            # one of the two attested messages carries a signature that does not verify, the
+            # other target is in perfect order
+            el = next(e for e in doc["elements"] if e["name"] == ("ui", "signer")[c["vtarget"]])
+            sig = bytearray(bytes.fromhex(el["signature"]))
+            sig[len(sig) - 1 - (vi % 8)] ^= 1 << (vi % 7)
+            el["signature"] = bytes(sig).hex()
+            labels.append("broken-target:" + el["name"])
+            genuine = False
     else:
         spec = {"root": c["roots"][0], "leaf": c["roots"][1], "att": c["roots"][2],
                 "inter": [c["roots"][3]], "auth": c["auth"], "custom": msg, "seed": c["tx"]}
@@ -207,10 +226,25 @@ def run_case(c):
             root_cert = certs.make_cert("root", other.public_key(), "root", other, "long")
             genuine = False
         elif var == "root-not-self-signed":
+            # the chosen root certificate carries the right key but is issued by somebody
+            # else: the chain does verify under its key; the statement does not ask for a
+            # self-signed anchor
             other = certs.p256_key(c["vkey"], role="otherroot")
             root_cert = certs.make_cert("root", v2.keys["sgx_root"].public_key(), "other",
                                         other, "long")
+            if genuine:
+                genuine = None
+        elif var == "bundled-root":
+            # the whole chain hangs off a foreign root which the file brings along as an element
+            # named like the root of trust; the operator chose the genuine root
+            foreign = certs.V2Cert(dict(spec, root=c["vkey"] + 1))
+            doc = foreign.to_dict()
+            doc["elements"].append({
+                "name": "sgx_root", "type": "x509_pem", "signed_by": "sgx_root",
+                "message": certs.der_to_b64(certs.cert_der(foreign.root_cert))})
             genuine = False
+        elif var == "one-target-signature-broken":
+            labels[-1] += "-na"
         root_arg = tmp("root.pem")
         with open(root_arg, "wb") as f:
             f.write(certs.cert_pem(root_cert))
@@ -239,10 +273,15 @@ def run_case(c):
     except Exception as e:    # noqa - both CLIs turn every exception into a non-zero exit
         err = e
     text = out.getvalue()
+    if genuine is None:
+        labels.append("not-asserted")
+        if err is not None:
+            labels.append("refused")
+            return Out(labels, True)
     if genuine and err is not None:
         raise Violation("genuine-refused:%s" % plat, "variant %s: %s: %s" % (
             var, type(err).__name__, str(err)[:300]))
-    if not genuine and err is None:
+    if genuine is False and err is None:
         raise Violation("vouched-for-non-genuine:%s:%s" % (plat, var.replace("-na", "")),
                         "variant %s accepted; output:\n%s" % (var, text[-1500:]))
     if err is not None:
@@ -281,7 +320,7 @@ def run_case(c):
         expect("Installed powHSM version", c["version"])
         ud_idx = 0
     if not c["legacy"]:
-        expect("Platform", c["platform3"].decode())
+        expect("Platform", platform3.decode())
         expect("UD value", c["ud"].hex(), ud_idx)
         expect("Best block", c["best"].hex())
         expect("Last transaction signed", c["tx"].hex())
